@@ -590,6 +590,27 @@ def denominators(e, _seen=None):
     return out
 
 
+def _base_vars(e, _seen=None):
+    """the plain input atoms an expression depends on, through function arguments, radicands and inverted polynomials"""
+    out = set()
+    if _seen is None:
+        _seen = set()
+    for v in e.atoms():
+        if v in _seen:
+            continue
+        _seen.add(v)
+        kd = CTX.kind[v]
+        if kd[0] in ('sqrt', 'inv'):
+            out |= _base_vars(kd[1], _seen)
+        elif kd[0] == 'fn':
+            for a_ in kd[2]:
+                if isinstance(a_, El):
+                    out |= _base_vars(a_, _seen)
+        else:
+            out.add(v)
+    return out
+
+
 def _positive_definite(p):
     """a sum of even powers with positive coefficients plus a positive constant (1 + x^2): never zero over the reals"""
     p = p.norm() if p.has_defined() else p
@@ -618,6 +639,24 @@ def uncovered_denominators(found, expected, nonzero=()):
     de = denominators(expected) + [n for n in nonzero]
     de = [d.norm() if d.has_defined() else d for d in de]
     de = [d for d in de if not d.zero()]
+    # bring all of them to the finest angle unit that occurs in any (1 + cos t and cos(t/2) vanish together)
+    alld = [(_d.norm() if _d.has_defined() else _d) for _d in df] + de
+    marks = [El.v('__den%d' % i) for i in range(len(alld))]
+    comb = ZERO
+    for m_, x_ in zip(marks, alld):
+        comb = comb + m_ * x_
+    ref = _trig_refine(comb.norm())
+    if ref is not None:
+        parts = []
+        for m_ in marks:
+            mv = m_.atoms().pop() if hasattr(m_, 'atoms') else None
+            sel = {}
+            for mono, c in ref.t.items():
+                if any(v == mv and e == 1 for v, e in mono):
+                    sel[tuple((v, e) for v, e in mono if v != mv)] = c
+            parts.append(El(sel).norm())
+        df = parts[:len(df)]
+        de = [x_ for x_ in parts[len(df):] if not x_.zero()]
     out = []
     for d in df:
         d = d.norm() if d.has_defined() else d
@@ -638,11 +677,13 @@ def uncovered_denominators(found, expected, nonzero=()):
                 pass
         if not ok and de and is_poly(d):
             prod = ONE
+            dvars = _base_vars(d)
             for e_ in de:
-                if is_poly(e_):
+                # (only factors that depend on some input d depends on can help)
+                if is_poly(e_) and (_base_vars(e_) & dvars):
                     prod = prod * e_
             try:
-                ok = (not prod.zero()) and any(m != () for m in prod.t) and (in_ideal(prod, [d]) or in_ideal(prod * prod, [d]))
+                ok = (not prod.zero()) and any(m != () for m in prod.t) and (in_ideal(prod.norm(), [d]) or in_ideal((prod * prod).norm(), [d]))
             except Exception:
                 ok = False
         if not ok:
@@ -681,10 +722,13 @@ def in_ideal(D, gens, max_cols=2500):
             out.extend(frontier)
         return sorted(set(out))
     cols = []
+    import math as _math
     for g in gens:
         k = dD - deg(g)
         if k < 0:
             continue
+        if _math.comb(len(vars_) + k, k) > max_cols:
+            return False          # (the multiplier space alone exceeds the budget: undecided)
         for m in monos(k):
             cols.append(g.rawmul(El({m: Fr(1)})))
             if len(cols) > max_cols:
